@@ -338,7 +338,7 @@ func Run(p *Prop, tier string, seed int64, root, self, raceSelf string) int {
 				}
 				cmd.Env = append(os.Environ(), "GOTRACEBACK=all", "GOMAXPROCS="+strconv.Itoa(procs))
 				if p.Race {
-					cmd.Env = append(cmd.Env, "GORACE=halt_on_error=0 history_size=3 log_path="+filepath.Join(work, fmt.Sprintf("race.w%d.%d", s, attempt)))
+					cmd.Env = append(cmd.Env, "GORACE=halt_on_error=0 exitcode=0 history_size=3 log_path="+filepath.Join(work, fmt.Sprintf("race.w%d.%d", s, attempt)))
 				}
 				if err := cmd.Start(); err != nil {
 					fmt.Fprintln(os.Stderr, "start worker:", err)
@@ -709,8 +709,8 @@ func raceSig(block string) string {
 			inAccess = false
 			continue
 		}
-		if inAccess && !got && t != "" && !strings.HasPrefix(t, "/") && strings.Contains(t, "(") {
-			fn := t[:strings.Index(t, "(")]
+		if inAccess && !got && t != "" && !strings.HasPrefix(t, "/") && strings.HasSuffix(t, ")") {
+			fn := strings.TrimSuffix(t, "()")
 			if strings.HasPrefix(fn, "runtime.") || strings.HasPrefix(fn, "sync.") || strings.HasPrefix(fn, "sync/atomic.") {
 				continue
 			}
